@@ -35,7 +35,7 @@ func genC11(t *rapid.T) C11Case {
 	cfg.MaxOpts = 4
 	cfg.MinOpts = 1
 	cfg.RequireOrder = 0
-	cfg.NoFn = false
+	cfg.NoFn = true // grouping commands (no function, only children): required options are enforced for them too, before their landing help
 	cfg.UnkModes = []int{0, 1, 2}
 	spec := GenProg(t, cfg)
 	spec.Env = map[string]string{}
